@@ -275,6 +275,7 @@ def C15(run):
 
 def C20(run):
     run.static()
+    gen_gap(run)          # the blank-line pattern is of the shape literal class* literal (no nested quantifier): regenerated and proved equal to a structural scan
     run.props()
     big = run.tier == 'thorough'
     run.suite('cost', 'cost_corr.py', [run.seed, 12 if big else 10], 'CO')
